@@ -401,14 +401,27 @@ class Frame(object):
             except IndexError:
                 raise_(IndexError, 'list assignment index out of range')
             return None
+        if isinstance(o, SSeq) and o.kind in ('list', 'bytearray') and isinstance(k, slice):
+            if k.step is not None:
+                raise E.Unsupported('extended slice assignment')
+            from . import models
+            n = o.n
+            lo = V.clamp_index(ops.as_int(k.start), n) if k.start is not None else z3.IntVal(0)
+            hi = V.clamp_index(ops.as_int(k.stop), n) if k.stop is not None else n
+            hi = V.simp(z3.If(hi < lo, lo, hi))
+            mid = models.typed_seq_of(o, v)
+            nv = V.concat(V.concat(V.slice_seq(o, 0, lo), mid, o.kind), V.slice_seq(o, hi, None), o.kind)
+            o.set(nv.n, nv._at)
+            return None
         if isinstance(o, SSeq) and o.kind in ('list', 'bytearray') and not isinstance(k, slice):
             P = E.cur()
+            from . import models
             i = ops.as_int(k)
             if P.branch(z3.Or(i >= o.n, i < -o.n)):
                 raise_(IndexError, 'assignment index out of range')
             i = V.simp(z3.If(i < 0, i + o.n, i))
             old = o._at
-            ve = ops.as_int(v)
+            ve = models.raw_term(o, v)
             o.set(o.n, lambda j, old=old, i=i, ve=ve: V.ite(V.simp(V.iv(j) == i), ve, old(j)))
             return None
         if V.is_symbolic(o) or V.is_symbolic(k) or V.is_symbolic(v):
